@@ -74,6 +74,10 @@ class Trk(Obj):
     def __init__(self, n, q):
         self._n, self.q = n, q
 
+    def ptS(self, k=5):
+        "same name as Jet.ptS, another default"
+        return self.q * 2 + k * 17
+
 
 class Jet(Obj):
     def __init__(self, n, pt, eta, tr):
